@@ -282,6 +282,19 @@ func (f *Fixture) stamp(late bool) time.Time {
 	return t
 }
 
+// error texts a participant may report: what an airgapped machine prints is
+// arbitrary (terminal colours, quotes, non-ASCII, control bytes, long traces)
+var errTexts = []string{
+	"reported",
+	"failed to process deals: \"commits are different\"",
+	"\x1b[31mERROR\x1b[0m share verification failed",
+	"nul\x00 bel\a del\x7f tab\t newline\n",
+	"не удалось расшифровать сделку — 解密失败 🔑",
+	"invalid utf8 \xff\xfe end",
+	"<script>&amp;</script> \\ backslash \u2028 sep",
+	strings.Repeat("very long error text ", 40),
+}
+
 func blob(tag string, pid int) []byte {
 	return []byte(fmt.Sprintf("%s-of-%d-%s", tag, pid, strings.Repeat("x", 20)))
 }
@@ -291,8 +304,16 @@ func (f *Fixture) Message(e Ev, offset int) storage.Message {
 	var ev string
 	var data interface{}
 	at := f.stamp(e.Late)
+	errText := errTexts[e.Var%len(errTexts)]
+	// error reports are encoded with a harness-local struct (plain string),
+	// not with the product's own FSMError marshaller: other senders exist
+	type wireErr struct {
+		ParticipantId int
+		Error         string
+		CreatedAt     time.Time
+	}
 	errReq := func() interface{} {
-		return requests.DKGProposalConfirmationErrorRequest{ParticipantId: e.Pid, Error: requests.NewFSMError(fmt.Errorf("reported")), CreatedAt: at}
+		return wireErr{ParticipantId: e.Pid, Error: errText, CreatedAt: at}
 	}
 	switch e.Kind {
 	case EvInit:
@@ -390,7 +411,7 @@ func (f *Fixture) Message(e Ev, offset int) storage.Message {
 		data = r
 	case EvErrSign:
 		ev = string(sif.EventSigningPartialSignError)
-		data = requests.SignatureProposalConfirmationErrorRequest{ParticipantId: e.Pid, Error: requests.NewFSMError(fmt.Errorf("cannot sign")), CreatedAt: at}
+		data = errReq()
 	}
 	bz, _ := json.Marshal(data)
 	return storage.Message{ID: fmt.Sprintf("h-%d", offset), DkgRoundID: f.Round, Offset: uint64(offset), Event: ev, Data: bz, SenderAddr: f.name(e.Pid)}
